@@ -281,6 +281,31 @@ func shQuote(w string) string {
 	return "'" + strings.ReplaceAll(w, "'", `'\''`) + "'"
 }
 
+// shQuoteStyle writes a word for the string spelling of a command in one of the shell's quoting styles.
+func shQuoteStyle(w string, style int) string {
+	plain := shQuote(w)
+	if plain == w || w == "" || strings.ContainsAny(w, "$`") {
+		return plain
+	}
+	switch style {
+	case 1: // a backslash before every character that is not plain
+		var b strings.Builder
+		for _, r := range w {
+			if !(r >= 'a' && r <= 'z' || r >= 'A' && r <= 'Z' || r >= '0' && r <= '9' || strings.ContainsRune("-_=./:,@%+", r)) {
+				b.WriteByte('\\')
+			}
+			b.WriteRune(r)
+		}
+		return b.String()
+	case 2: // double quotes
+		if strings.ContainsAny(w, `\`) {
+			return plain
+		}
+		return `"` + strings.ReplaceAll(w, `"`, `\"`) + `"`
+	}
+	return plain
+}
+
 type kvEntry struct {
 	K    string
 	V    string
@@ -617,9 +642,9 @@ func genC03(t *rapid.T) c03Case {
 		var words []any
 		var quoted []string
 		for i := 0; i < n; i++ {
-			w := rapid.SampledFrom([]string{"echo", "hello world", "--flag=value", "it's", `say "hi"`, "a\\b", "$$HOME", "x;y", "*", "", "tab\tx", "multi  space", "#hash"}).Draw(t, "word")
+			w := rapid.SampledFrom([]string{"echo", "hello world", "--flag=value", "it's", `say "hi"`, "a\\b", "$$HOME", "x;y", "*", "", "tab\tx", "multi  space", "#hash", "/opt/my tools/run", "*.go", "a b\\c"}).Draw(t, "word")
 			words = append(words, w)
-			quoted = append(quoted, shQuote(w))
+			quoted = append(quoted, shQuoteStyle(w, rapid.IntRange(0, 2).Draw(t, "quoting")))
 		}
 		p.Attr = "command:" + attr
 		str := strings.Join(quoted, " ")
